@@ -2263,17 +2263,20 @@ size_t ZSTD_decompressStream(ZSTD_DStream* zds, ZSTD_outBuffer* output, ZSTD_inB
 
             /* Consume header (see ZSTDds_decodeFrameHeader) */
             DEBUGLOG(4, "Consume header");
-            FORWARD_IF_ERROR(ZSTD_decompressBegin_usingDDict(zds, ZSTD_getDDict(zds)), "");
+            {   int const isSkippable = (zds->format == ZSTD_f_zstd1)
+                                     && ((MEM_readLE32(zds->headerBuffer) & ZSTD_MAGIC_SKIPPABLE_MASK) == ZSTD_MAGIC_SKIPPABLE_START);
+                /* a skippable frame uses no dictionary : a single-use one (ZSTD_DCtx_refPrefix()) stays for the next frame,
+                 * as it does in ZSTD_decompressMultiFrame() */
+                FORWARD_IF_ERROR(ZSTD_decompressBegin_usingDDict(zds, isSkippable ? NULL : ZSTD_getDDict(zds)), "");
 
-            if (zds->format == ZSTD_f_zstd1
-                && (MEM_readLE32(zds->headerBuffer) & ZSTD_MAGIC_SKIPPABLE_MASK) == ZSTD_MAGIC_SKIPPABLE_START) {  /* skippable frame */
-                zds->expected = MEM_readLE32(zds->headerBuffer + ZSTD_FRAMEIDSIZE);
-                zds->stage = ZSTDds_skipFrame;
-            } else {
-                FORWARD_IF_ERROR(ZSTD_decodeFrameHeader(zds, zds->headerBuffer, zds->lhSize), "");
-                zds->expected = ZSTD_blockHeaderSize;
-                zds->stage = ZSTDds_decodeBlockHeader;
-            }
+                if (isSkippable) {
+                    zds->expected = MEM_readLE32(zds->headerBuffer + ZSTD_FRAMEIDSIZE);
+                    zds->stage = ZSTDds_skipFrame;
+                } else {
+                    FORWARD_IF_ERROR(ZSTD_decodeFrameHeader(zds, zds->headerBuffer, zds->lhSize), "");
+                    zds->expected = ZSTD_blockHeaderSize;
+                    zds->stage = ZSTDds_decodeBlockHeader;
+            }   }
 
             /* control buffer memory usage */
             DEBUGLOG(4, "Control max memory usage (%u KB <= max %u KB)",
